@@ -5,4 +5,350 @@ Lemmas for C13: the editing operations of the object pool preserve `WF`.
 namespace Firefly.C13
 open Firefly.AmlTree Firefly.AmlTree.ObjectTree
 
+/-- `localOK` as a proposition -/
+structure LocalP (t : ObjectTree) (i : Nat) : Prop where
+  lp : P t i = INV ∨ live t (P t i) = true
+  lpv : Pv t i = INV ∨ live t (Pv t i) = true
+  lnx : Nx t i = INV ∨ live t (Nx t i) = true
+  lfi : Fi t i = INV ∨ live t (Fi t i) = true
+  lla : La t i = INV ∨ live t (La t i) = true
+  det : P t i = INV → Pv t i = INV ∧ Nx t i = INV
+  pv : Pv t i ≠ INV → Nx t (Pv t i) = i ∧ P t (Pv t i) = P t i
+  nx : Nx t i ≠ INV → Pv t (Nx t i) = i ∧ P t (Nx t i) = P t i
+  first : P t i ≠ INV → Pv t i = INV → Fi t (P t i) = i
+  last : P t i ≠ INV → Nx t i = INV → La t (P t i) = i
+  fi : Fi t i ≠ INV → P t (Fi t i) = i ∧ Pv t (Fi t i) = INV
+  la : La t i ≠ INV → P t (La t i) = i ∧ Nx t (La t i) = INV
+  ends : Fi t i = INV ↔ La t i = INV
+
+theorem localOK_iff (t : ObjectTree) (i : Nat) : localOK t i = true ↔ LocalP t i := by
+  constructor
+  · intro h
+    simp only [localOK, Bool.and_eq_true, Bool.or_eq_true, decide_eq_true_eq, ne_eq,
+      decide_not, Bool.not_eq_true', decide_eq_false_iff_not, beq_iff_eq, decide_eq_decide, linkOK_iff] at h
+    obtain ⟨⟨⟨⟨⟨⟨⟨⟨⟨⟨⟨⟨a1, a2⟩, a3⟩, a4⟩, a5⟩, c1⟩, c2⟩, c3⟩, c4⟩, c5⟩, c6⟩, c7⟩, c8⟩ := h
+    exact ⟨a1, a2, a3, a4, a5, by grind, by grind, by grind, by grind, by grind, by grind, by grind, c8⟩
+  · intro h
+    obtain ⟨a1, a2, a3, a4, a5, c1, c2, c3, c4, c5, c6, c7, c8⟩ := h
+    simp only [localOK, Bool.and_eq_true, Bool.or_eq_true, decide_eq_true_eq, ne_eq,
+      decide_not, Bool.not_eq_true', decide_eq_false_iff_not, beq_iff_eq, decide_eq_decide, linkOK_iff]
+    refine ⟨⟨⟨⟨⟨⟨⟨⟨⟨⟨⟨⟨a1, a2⟩, a3⟩, a4⟩, a5⟩, ?_⟩, ?_⟩, ?_⟩, ?_⟩, ?_⟩, ?_⟩, ?_⟩, c8⟩ <;> grind
+
+theorem WF.lP {t : ObjectTree} (w : WF t) {i : Nat} (h : live t i = true) : LocalP t i :=
+  (localOK_iff t i).1 (w.loc i h)
+
+/-! ### field accessors after one write -/
+
+section setAt
+variable (t : ObjectTree) (i : Nat) (f : Obj → Obj) (h : i < t.pool.size)
+include h
+
+theorem P_setAt (x : Nat) : P (setAt t i f) x = if i = x then (f (slot t x)).parentIndex else P t x := by
+  simp only [P, slot_setAt t i f x h]; split <;> rfl
+theorem Pv_setAt (x : Nat) : Pv (setAt t i f) x = if i = x then (f (slot t x)).prevSiblingIndex else Pv t x := by
+  simp only [Pv, slot_setAt t i f x h]; split <;> rfl
+theorem Nx_setAt (x : Nat) : Nx (setAt t i f) x = if i = x then (f (slot t x)).nextSiblingIndex else Nx t x := by
+  simp only [Nx, slot_setAt t i f x h]; split <;> rfl
+theorem Fi_setAt (x : Nat) : Fi (setAt t i f) x = if i = x then (f (slot t x)).firstArgIndex else Fi t x := by
+  simp only [Fi, slot_setAt t i f x h]; split <;> rfl
+theorem La_setAt (x : Nat) : La (setAt t i f) x = if i = x then (f (slot t x)).lastArgIndex else La t x := by
+  simp only [La, slot_setAt t i f x h]; split <;> rfl
+theorem live_setAt (x : Nat) (hop : (f (slot t i)).opcode = (slot t i).opcode) :
+    live (setAt t i f) x = live t x := by
+  simp only [live, size_setAt, slot_setAt t i f x h]
+  by_cases e : i = x
+  · subst e; simp [hop]
+  · simp [e]
+end setAt
+
+/-! ### the free chain has no repetition -/
+
+theorem freeChain_det {t : ObjectTree} : ∀ (l1 l2 : List Nat) (a : Nat), t.pool.size ≤ INV →
+    FreeChain t a l1 → FreeChain t a l2 → l1 = l2 := by
+  intro l1
+  induction l1 with
+  | nil =>
+    intro l2 a hs h1 h2
+    cases l2 with
+    | nil => rfl
+    | cons y ys =>
+      have : a = INV := h1
+      obtain ⟨rfl, hy, _⟩ := h2
+      omega
+  | cons x xs ih =>
+    intro l2 a hs h1 h2
+    obtain ⟨rfl, hx, _, h1'⟩ := h1
+    cases l2 with
+    | nil => have : a = INV := h2; omega
+    | cons y ys =>
+      obtain ⟨rfl, _, _, h2'⟩ := h2
+      rw [ih ys _ hs h1' h2']
+
+theorem freeChain_suffix {t : ObjectTree} : ∀ (l : List Nat) (a x : Nat), FreeChain t a l → x ∈ l →
+    ∃ l', FreeChain t x l' ∧ l'.length ≤ l.length := by
+  intro l
+  induction l with
+  | nil => intro a x _ hx; simp at hx
+  | cons y ys ih =>
+    intro a x hc hx
+    obtain ⟨rfl, hy, hl, hc'⟩ := hc
+    rcases List.mem_cons.1 hx with rfl | hx
+    · exact ⟨x :: ys, ⟨rfl, hy, hl, hc'⟩, by simp⟩
+    · obtain ⟨l', h1, h2⟩ := ih _ x hc' hx
+      exact ⟨l', h1, by simp; omega⟩
+
+theorem freeChain_head_notin {t : ObjectTree} (hs : t.pool.size ≤ INV) {h : Nat} {xs : List Nat}
+    (hc : FreeChain t h (h :: xs)) : h ∉ xs := by
+  intro hm
+  obtain ⟨l', h1, h2⟩ := freeChain_suffix xs _ h hc.2.2.2 hm
+  have := freeChain_det _ _ _ hs h1 hc
+  subst this
+  simp at h2; omega
+
+/-- a chain that avoids the positions where two pools differ is a chain of both -/
+theorem freeChain_congr {t t' : ObjectTree} (hsz : t.pool.size ≤ t'.pool.size) :
+    ∀ (l : List Nat) (a : Nat), (∀ x ∈ l, live t' x = live t x ∧ Nx t' x = Nx t x) →
+      FreeChain t a l → FreeChain t' a l := by
+  intro l
+  induction l with
+  | nil => intro a _ h; exact h
+  | cons y ys ih =>
+    intro a hsame hc
+    obtain ⟨rfl, hy, hl, hc'⟩ := hc
+    have := hsame a (by simp)
+    refine ⟨rfl, by omega, by rw [this.1]; exact hl, ?_⟩
+    rw [this.2]
+    exact ih _ (fun x hx => hsame x (by simp [hx])) hc'
+
+/-! ### newObject -/
+
+/-- the reset every `newObject` applies -/
+def initObj (opcode info th : Nat) (o : Obj) : Obj :=
+  { o with opcode := opcode, infoIndex := info, tableHandle := th,
+           parentIndex := InvalidIndex, prevSiblingIndex := InvalidIndex,
+           nextSiblingIndex := InvalidIndex, firstArgIndex := InvalidIndex,
+           lastArgIndex := InvalidIndex, value := .none }
+
+/-- a pool `t'` that agrees with `t` everywhere except at `n`, where a fresh detached live object
+sits, and whose live set is that of `t` plus `n` -/
+structure Fresh (t t' : ObjectTree) (n : Nat) : Prop where
+  nlive : live t n = false
+  same : ∀ x, x ≠ n → slot t' x = slot t x
+  livex : ∀ x, x ≠ n → live t' x = live t x
+  liven : live t' n = true
+  pn : P t' n = INV
+  pvn : Pv t' n = INV
+  nxn : Nx t' n = INV
+  fin : Fi t' n = INV
+  lan : La t' n = INV
+
+theorem Fresh.localP {t t' : ObjectTree} {n : Nat} (fr : Fresh t t' n) (w : WF t) :
+    ∀ i, live t' i = true → LocalP t' i := by
+  intro i hl
+  by_cases hi : i = n
+  · subst hi
+    refine ⟨Or.inl fr.pn, Or.inl fr.pvn, Or.inl fr.nxn, Or.inl fr.fin, Or.inl fr.lan, ?_, ?_, ?_, ?_, ?_, ?_, ?_, ?_⟩
+    · intro _; exact ⟨fr.pvn, fr.nxn⟩
+    · intro h; exact absurd fr.pvn h
+    · intro h; exact absurd fr.nxn h
+    · intro h; exact absurd fr.pn h
+    · intro h; exact absurd fr.pn h
+    · intro h; exact absurd fr.fin h
+    · intro h; exact absurd fr.lan h
+    · simp [fr.fin, fr.lan]
+  · have hl0 : live t i = true := by rw [← fr.livex i hi]; exact hl
+    have lp := w.lP hl0
+    have hne : ∀ x, live t x = true → x ≠ n := fun x hx e => by rw [e, fr.nlive] at hx; cases hx
+    have acc : ∀ x, x ≠ n → P t' x = P t x ∧ Pv t' x = Pv t x ∧ Nx t' x = Nx t x ∧ Fi t' x = Fi t x ∧ La t' x = La t x := by
+      intro x hx; simp [P, Pv, Nx, Fi, La, fr.same x hx]
+    have lv : ∀ x, live t x = true → live t' x = true := fun x hx => by rw [fr.livex x (hne x hx)]; exact hx
+    obtain ⟨a1, a2, a3, a4, a5⟩ := acc i hi
+    obtain ⟨b1, b2, b3, b4, b5, c1, c2, c3, c4, c5, c6, c7, c8⟩ := lp
+    have up : ∀ y, (y = INV ∨ live t y = true) → (y = INV ∨ live t' y = true) := fun y hy => hy.elim Or.inl (fun h => Or.inr (lv y h))
+    refine ⟨?_, ?_, ?_, ?_, ?_, ?_, ?_, ?_, ?_, ?_, ?_, ?_, ?_⟩
+    · rw [a1]; exact up _ b1
+    · rw [a2]; exact up _ b2
+    · rw [a3]; exact up _ b3
+    · rw [a4]; exact up _ b4
+    · rw [a5]; exact up _ b5
+    · rw [a1, a2, a3]; exact c1
+    · rw [a2, a1]; intro h
+      have hy := hne _ (b2.resolve_left h)
+      rw [(acc _ hy).2.2.1, (acc _ hy).1]; exact c2 h
+    · rw [a3, a1]; intro h
+      have hy := hne _ (b3.resolve_left h)
+      rw [(acc _ hy).2.1, (acc _ hy).1]; exact c3 h
+    · rw [a1, a2]; intro h h'
+      have hy := hne _ (b1.resolve_left h)
+      rw [(acc _ hy).2.2.2.1]; exact c4 h h'
+    · rw [a1, a3]; intro h h'
+      have hy := hne _ (b1.resolve_left h)
+      rw [(acc _ hy).2.2.2.2]; exact c5 h h'
+    · rw [a4]; intro h
+      have hy := hne _ (b4.resolve_left h)
+      rw [(acc _ hy).1, (acc _ hy).2.1]; exact c6 h
+    · rw [a5]; intro h
+      have hy := hne _ (b5.resolve_left h)
+      rw [(acc _ hy).1, (acc _ hy).2.2.1]; exact c7 h
+    · rw [a4, a5]; exact c8
+
+theorem Fresh.wf {t t' : ObjectTree} {n : Nat} (fr : Fresh t t' n) (w : WF t)
+    (hsz : t'.pool.size ≤ INV) (hidx : ∀ i, i < t'.pool.size → (slot t' i).index = i)
+    (hfree : ∃ fl, FreeChain t' t'.freeListHeadIndex fl ∧ ∀ i, i < t'.pool.size → live t' i = false → i ∈ fl) :
+    WF t' := by
+  have hne : ∀ x, live t' x = true → x ≠ n → live t x = true := fun x hx e => by rw [← fr.livex x e]; exact hx
+  refine ⟨hsz, hidx, fun i hl => (localOK_iff t' i).2 (fr.localP w i hl), ?_, ?_, hfree⟩
+  · obtain ⟨rk, hrk⟩ := w.rank
+    refine ⟨rk, fun i hl hp => ?_⟩
+    have hi : i ≠ n := fun e => hp (e ▸ fr.pn)
+    have : P t' i = P t i := by simp [P, fr.same i hi]
+    rw [this] at hp ⊢
+    exact hrk i (hne i hl hi) hp
+  · obtain ⟨pos, hpos⟩ := w.order
+    refine ⟨pos, fun i hl hp => ?_⟩
+    have hi : i ≠ n := fun e => hp (e ▸ fr.nxn)
+    have : Nx t' i = Nx t i := by simp [Nx, fr.same i hi]
+    rw [this] at hp ⊢
+    exact hpos i (hne i hl hi) hp
+
+theorem slot_push (t : ObjectTree) (o : Obj) (x : Nat) :
+    slot { t with pool := t.pool.push o } x = if x = t.pool.size then o else slot t x := by
+  simp only [slot, Array.getElem?_push]
+  split <;> rfl
+
+/-- `newObject` under its contract (`pool.size < 2^32-1`, the opcode is not the freed marker):
+succeeds, preserves `WF`, and adds exactly one fresh detached live object. -/
+theorem newObject_wf {t : ObjectTree} (w : WF t) (opcode info th : Nat)
+    (hpre : t.pool.size < INV) (hop : opcode ≠ pOpIntFreedObject) :
+    ∃ t' i, t.newObject opcode info th = .ok (t', i) ∧ WF t' ∧ Fresh t t' i := by
+  obtain ⟨fl, hc, hall⟩ := w.free
+  have hh := freeChain_head w.size_le hc
+  by_cases h0 : t.freeListHeadIndex = InvalidIndex
+  · -- the pool grows
+    have hfl : fl = [] := hh.1.1 h0
+    have hlive : ∀ j, j < t.pool.size → live t j = true := by
+      intro j hj
+      cases hj' : live t j with
+      | true => rfl
+      | false => have := hall j hj hj'; simp [hfl] at this
+    refine ⟨{ t with pool := t.pool.push (initObj opcode info th { index := t.pool.size }) }, t.pool.size, ?_, ?_⟩
+    · unfold ObjectTree.newObject
+      rw [if_neg (by simp [h0])]
+      rfl
+    have fr : Fresh t { t with pool := t.pool.push (initObj opcode info th { index := t.pool.size }) } t.pool.size := by
+      refine ⟨by simp [live], ?_, ?_, ?_, ?_, ?_, ?_, ?_, ?_⟩
+      · intro x hx; simp [slot_push, hx]
+      · intro x hx
+        simp only [live, slot_push, hx, if_false, Array.size_push]
+        by_cases hx' : x < t.pool.size
+        · simp [hx']; omega
+        · simp [hx']; omega
+      · simp [live, slot_push, initObj, hop]
+      all_goals simp [P, Pv, Nx, Fi, La, slot_push, initObj, INV]
+    refine ⟨fr.wf w (by simp; omega) ?_ ⟨[], h0, ?_⟩, fr⟩
+    · intro i hi
+      simp only [slot_push]
+      split
+      · rename_i e; simp [initObj, e]
+      · rename_i e; simp at hi; exact w.index_eq i (by omega)
+    · intro i hi hl
+      simp at hi
+      by_cases e : i = t.pool.size
+      · rw [e, fr.liven] at hl; cases hl
+      · rw [fr.livex i e, hlive i (by omega)] at hl; cases hl
+  · -- a freed slot is reused
+    obtain ⟨hlt, hnl⟩ := hh.2 h0
+    cases fl with
+    | nil => exact absurd (hh.1.2 rfl) h0
+    | cons x xs =>
+      obtain ⟨hx, _, _, hc'⟩ := id hc
+      subst hx
+      have hnotin := freeChain_head_notin w.size_le hc
+      let t0 : ObjectTree := { t with freeListHeadIndex := (slot t t.freeListHeadIndex).nextSiblingIndex }
+      have hsl0 : ∀ y, slot t0 y = slot t y := fun y => rfl
+      refine ⟨setAt t0 t.freeListHeadIndex (initObj opcode info th), t.freeListHeadIndex, ?_, ?_⟩
+      · simp only [ObjectTree.newObject, ne_eq, h0, not_false_eq_true, if_true, obj_eq hlt, bind, Except.bind]
+        rw [upd_eq _ (by simpa using hlt)]
+        rfl
+      have hlt0 : t.freeListHeadIndex < t0.pool.size := hlt
+      have fr : Fresh t (setAt t0 t.freeListHeadIndex (initObj opcode info th)) t.freeListHeadIndex := by
+        refine ⟨hnl, ?_, ?_, ?_, ?_, ?_, ?_, ?_, ?_⟩
+        · intro y hy; rw [slot_setAt _ _ _ _ hlt0]; simp [Ne.symm hy, hsl0]
+        · intro y hy
+          simp only [live, size_setAt, slot_setAt _ _ _ _ hlt0, Ne.symm hy, if_false]
+          rfl
+        · simp only [live, size_setAt, slot_setAt _ _ _ _ hlt0, if_true]
+          simp [initObj, hop]; exact hlt
+        all_goals simp [P, Pv, Nx, Fi, La, slot_setAt _ _ _ _ hlt0, initObj, INV]
+      refine ⟨fr.wf w (by simpa using w.size_le) ?_ ⟨xs, ?_, ?_⟩, fr⟩
+      · intro i hi
+        rw [slot_setAt _ _ _ _ hlt0]
+        split
+        · rename_i e; subst e; simp only [initObj]; exact w.index_eq _ hlt
+        · exact w.index_eq i (by simpa using hi)
+      · have : (setAt t0 t.freeListHeadIndex (initObj opcode info th)).freeListHeadIndex = Nx t t.freeListHeadIndex := rfl
+        rw [this]
+        apply freeChain_congr (t := t) (by simp [t0]) xs _ _ hc'
+        intro y hy
+        have hyn : y ≠ t.freeListHeadIndex := fun e => hnotin (by rw [← e]; exact hy)
+        exact ⟨fr.livex y hyn, by simp [Nx, fr.same y hyn]⟩
+      · intro i hi hl
+        have hin : i ≠ t.freeListHeadIndex := fun e => by rw [e, fr.liven] at hl; cases hl
+        rw [fr.livex i hin] at hl
+        have := hall i (by simpa using hi) hl
+        rcases List.mem_cons.1 this with e | e
+        · exact absurd e hin
+        · exact e
+
+/-! ### every child is in its parent's child list -/
+
+theorem chain_succ_mem {t : ObjectTree} (hs : t.pool.size ≤ INV) :
+    ∀ (l : List Nat) (a j : Nat), Chain t (Nx t) a l → j ∈ l → Nx t j ≠ INV → Nx t j ∈ l := by
+  intro l
+  induction l with
+  | nil => intro a j _ hj; simp at hj
+  | cons x xs ih =>
+    intro a j hc hj hn
+    obtain ⟨rfl, hl, hc'⟩ := hc
+    rcases List.mem_cons.1 hj with rfl | hj
+    · cases xs with
+      | nil => exact absurd hc' hn
+      | cons y ys => obtain ⟨e, _, _⟩ := hc'; simp [e]
+    · exact List.mem_cons_of_mem _ (ih _ j hc' hj hn)
+
+theorem WF.child_mem {t : ObjectTree} (w : WF t) {p : Nat} {l : List Nat} (hc : Chain t (Nx t) (Fi t p) l)
+    (pos : Nat → Nat) (hpos : ∀ i, live t i = true → Nx t i ≠ INV → pos i < pos (Nx t i)) :
+    ∀ (n i : Nat), pos i ≤ n → live t i = true → P t i = p → p ≠ INV → i ∈ l := by
+  intro n
+  induction n with
+  | zero =>
+    intro i hn hl hp hpn
+    have lp := w.lP hl
+    by_cases hpv : Pv t i = INV
+    · have := lp.first (hp ▸ hpn) hpv
+      rw [hp] at this
+      cases l with
+      | nil => exact absurd (this ▸ hc : i = INV) (live_ne_INV w.size_le hl)
+      | cons x xs => obtain ⟨e, _, _⟩ := hc; rw [this] at e; simp [e]
+    · have hj := lp.lpv.resolve_left hpv
+      have := hpos _ hj (by rw [(lp.pv hpv).1]; exact live_ne_INV w.size_le hl)
+      rw [(lp.pv hpv).1] at this
+      omega
+  | succ n ih =>
+    intro i hn hl hp hpn
+    have lp := w.lP hl
+    by_cases hpv : Pv t i = INV
+    · have := lp.first (hp ▸ hpn) hpv
+      rw [hp] at this
+      cases l with
+      | nil => exact absurd (this ▸ hc : i = INV) (live_ne_INV w.size_le hl)
+      | cons x xs => obtain ⟨e, _, _⟩ := hc; rw [this] at e; simp [e]
+    · have hj := lp.lpv.resolve_left hpv
+      have hne : Nx t (Pv t i) ≠ INV := by rw [(lp.pv hpv).1]; exact live_ne_INV w.size_le hl
+      have := hpos _ hj hne
+      rw [(lp.pv hpv).1] at this
+      have hmem := ih (Pv t i) (by omega) hj (by rw [(lp.pv hpv).2, hp]) hpn
+      have := chain_succ_mem w.size_le l _ _ hc hmem hne
+      rwa [(lp.pv hpv).1] at this
+
 end Firefly.C13
